@@ -375,8 +375,9 @@ def t_matrix(rng, gid, configured=None, theme=False):
             'targets': targets, 'depth': 0, 'debug': bool(cfg.get('debug')), 'matrix': True}
 
 
-def t_simitem(rng, gid, configured=None, tag=True):
+def t_simitem(rng, gid, configured=None, tag=None):
     configured = maybe(rng, 0.4) if configured is None else configured
+    tag = maybe(rng, 0.65) if tag is None else tag
     cfg = {'name': gid + '.sim', 'tag': tag, 'shared': maybe(rng, 0.4),
            'table': {'a': {'a': 1, 'A': 0.5, 'b': 0}, 'b': {'b': 1, 'a': 0.25}, 'c': {'c': 1, 'C': 1.0 / 3}}}
     common_opts(rng, cfg)
